@@ -355,8 +355,20 @@ fn format(
         } else {
             // Check the file directory if the config-path could not be read or not provided
             if config_path.is_none() {
+                // A configuration that cannot be loaded is an error for this file only; the
+                // remaining files are still formatted.
                 let (local_config, config_path) =
-                    load_config(Some(file.parent().unwrap()), Some(options.clone()))?;
+                    match load_config(Some(file.parent().unwrap()), Some(options.clone())) {
+                        Ok(loaded) => loaded,
+                        Err(e) => {
+                            eprintln!(
+                                "Error: unable to load the configuration for `{}`: {e}",
+                                file.display()
+                            );
+                            session.add_operational_error();
+                            continue;
+                        }
+                    };
                 if local_config.verbose() == Verbosity::Verbose {
                     if let Some(path) = config_path {
                         println!(
